@@ -454,11 +454,11 @@ class Body:
                 res.add(o)
         return res
 
-    def origins(self, x, depth=40, via=None, restrict=None, deep=False):
+    def origins(self, x, depth=40, via=None, restrict=None, deep=False, path0=()):
         """`restrict`: ordered list of blocks (a path prefix). When given, a local with several definitions takes only the
         latest definition that lies on that path (path-restricted provenance); single-definition temporaries are unaffected."""
         order = {b: i for i, b in enumerate(restrict)} if restrict is not None else None
-        return self._origins(x, depth, via, order, deep)
+        return self._origins(x, depth, via, order, deep, path0)
 
     def _origins(self, x, depth, via, order, deep=False, path0=()):
         """Origins of an operand or place: set of tuples
